@@ -234,6 +234,20 @@ def run(ctx):
         ctx.ob("R4", "%s|stores Err into its cell" % b.short, bool(pw), b.where(),
                "poison writes (`*cell = Err(error)`) at %s — without it later operations on the component keep working "
                "after the connection has failed" % (["bb%d:L%s" % x for x in pw] or "none"))
+    # every live state is poisoned (not only some arms of the state match)
+    for name, enum, live in (("qrecovery::send::outgoing::Outgoing::on_conn_error", "qrecovery::send::sender::Sender", ["Ready", "Sending", "DataSent"]),
+                             ("qrecovery::recv::incoming::Incoming::on_conn_error", "qrecovery::recv::recver::Recver", ["Recv", "SizeKnown"])):
+        b = ctx.anchor("R4", name)
+        if not b:
+            continue
+        tb = arm_table(prog, b, enum) or {}
+        pw = set(i for i, _ in poison_writes(b))
+        for st in live:
+            arm = tb.get(st)
+            ok = arm is not None and bool(pw & b.reachable_from(arm["target"]))
+            ctx.ob("R4", "%s|state %s is poisoned" % (b.short, st), ok, b.where(),
+                   "the %s arm reaches the `*cell = Err(error)` store: %s (a stream left in this state keeps returning Pending "
+                   "after the connection failed: pending flush/shutdown/read never complete)" % (st, ok))
     deleg = {"qrecovery::streams::raw::DataStreams::on_conn_error": [r"ArcOutputGuard::on_conn_error$", r"ArcInputGuard::on_conn_error$", r"ListenerGuard::on_conn_error$"],
              "qdatagram::DatagramFlow::on_conn_error": [r"DatagramIncoming::on_conn_error$", r"DatagramOutgoing::on_conn_error$"],
              "qrecovery::streams::io::ArcOutputGuard::on_conn_error": [r"Outgoing::on_conn_error$"],
